@@ -56,6 +56,16 @@ STRESS = [
 ]
 
 
+def std_hints(fs):
+    """inlay-hint ranges used when re-running a (shrunk) failing input: whole file, and empty ranges at a few offsets"""
+    out = []
+    for p, t in fs:
+        n = len(t.encode("utf-8"))
+        b = set(L._boundaries(t))
+        out += [[p, 0, n], [p, 0, 0]] + [[p, k, k] for k in (1, 2, 3, 5, 8, 13, n) if k in b and 0 < k <= n]
+    return out
+
+
 def gen_inputs(ctx):
     g = symgen.Gen(ctx.rng)
     wss, kinds = [], []
@@ -143,14 +153,14 @@ def run(ctx):
             def pred(fs, root=e["ws"]["root"], w0=e["ws"]):
                 w = dict(w0)
                 w["files"] = fs
-                w["hint_ranges"] = [[p, 0, len(t.encode("utf-8"))] for p, t in fs] + [[p, 0, 0] for p, t in fs]
+                w["hint_ranges"] = std_hints(fs)
                 rr = L.run_symdump(bindir, [w], timeout=30)[0]
                 return L.c03_problem(rr) is not None
             if pred(files):
                 files = L.shrink_files(files, e["ws"]["root"], pred, 20)
         ctx.violation("C03 violated on the real analysis: %s" % e["c03"],
                       {"property": "C03", "files": files, "root": e["ws"]["root"], "original_files": e["ws"]["files"],
-                       "hint_ranges": "whole file and the empty range 0..0 of every file", "what": e["c03"], "seed": ctx.seed, "kind": kind,
+                       "hint_ranges": std_hints(files), "what": e["c03"], "seed": ctx.seed, "kind": kind,
                        "failing_workspaces_in_this_run": len(bad_inputs)})
         found = True
     if ties and not found:
@@ -190,8 +200,9 @@ def replay(ctx, path):
     bindir = vlib.build_harness(True, bins=["symdump"])
     exe = vlib.build_model("symmap")
     fs = obj["files"]
+    hr = obj.get("hint_ranges")
     w = {"files": fs, "root": obj["root"], "hover": True, "completion": True,
-         "hint_ranges": [[p, 0, len(t.encode("utf-8"))] for p, t in fs] + [[p, 0, 0] for p, t in fs]}
+         "hint_ranges": hr if isinstance(hr, list) else std_hints(fs)}
     e = L.evaluate(bindir, exe, [w])[0]
     print("implementation:", e["c03"] or "all queries answered (%d)" % e["real"]["queries"])
     if e["c03"] is None:
